@@ -34,11 +34,13 @@ def alphabet(world, full):
     loads = _loads(world)
     copyfrom = [("copyfrom", op[1], op[2]) for op in loads[:6]]
     cfg = {
-        "values": (3,), "templates": ("mul2", "add") if full else ("mul2",),
+        # constcall / the literal-only definition below: expressions that read NO location (empty dependency set) are definitions too
+        "values": (3,), "templates": ("mul2", "add", "constcall") if full else ("mul2", "constcall"),
         "iops": (("add", ("lit", 1)), ("mul", ("src",))) if full else (("add", ("lit", 1)),),
         "unreg": True,
         "funs": tuple(world["funs"]), "knobs": tuple(world["knobs"]),
-        "extra": [("refresh",), ("cleanup",), ("verify",), ("freeze",), ("unfreeze",)] + loads[:10] + copyfrom + frozen_only(world),
+        "extra": [("refresh",), ("cleanup",), ("verify",), ("freeze",), ("unfreeze",)] + loads[:10] + copyfrom + frozen_only(world) +
+                 [("def", world["leaves"][-1], ("bin", "mul", ("L", 2), ("L", 3)))],
     }
     return cfg
 
